@@ -32,9 +32,10 @@ Every operation reads the clock once, when it starts (`util.CurrentTimeMillis()`
 hook); different threads may therefore carry different readings — that is how a recorder straddles a
 rollover.  `tick` entries of a schedule advance the clock.
 
-Shared words are functions `Nat → …` (slot ↦ word) updated point-wise; `tot` is a **ghost**
-(per slot and event: everything ever added by an executed `AddInt64`), used only by the theorems
-and by the reported `totAt` of a result.
+Shared words are functions `Nat → …` (slot ↦ word) updated point-wise; `tot`, `fresh`, `dirty`, `lost`
+are **ghosts** (never read by a step): `tot` = everything ever added to the word by an executed
+`AddInt64`; `fresh` = the same since the slot's start was last stored; `dirty` = start stored, counter
+not yet zeroed (the window of the known finding); `lost` = amounts added while dirty.
 -/
 namespace Sentinel.LAR
 open Sentinel.LA (cbs deprecated rangeOf)
@@ -76,6 +77,9 @@ structure Shared where
   maxConc : Nat → Nat
   lock : Bool                   -- LeapArray.updateLock
   tot : Nat → Nat → Nat         -- ghost: Σ amounts of the executed atomic adds per slot and event
+  fresh : Nat → Nat → Nat       -- ghost: Σ amounts added to the word since the slot's start was last stored
+  dirty : Nat → Nat → Bool      -- ghost: the slot's start has been stored, this counter has not been zeroed yet
+  lost : Nat → Nat → Nat        -- ghost: Σ amounts added to the word while it was dirty (wiped by the zeroing)
 
 def upd {α : Type} (f : Nat → α) (i : Nat) (v : α) : Nat → α := fun j => if j = i then v else f j
 def upd2 (f : Nat → Nat → Nat) (i k v : Nat) : Nat → Nat → Nat := fun a b => if a = i ∧ b = k then v else f a b
@@ -91,11 +95,22 @@ def Shared.apply (sh : Shared) : Act → Shared
   | .none => sh
   | .lock => { sh with lock := true }
   | .unlock => { sh with lock := false }
-  | .setStart i s => { sh with start := upd sh.start i s }
-  | .zeroCnt i k => { sh with cnt := upd2 sh.cnt i k 0 }
+  | .setStart i s =>
+      { sh with start := upd sh.start i s,
+                fresh := fun a b => if a = i then 0 else sh.fresh a b,
+                dirty := fun a b => if a = i then true else sh.dirty a b,
+                lost := fun a b => if a = i then 0 else sh.lost a b }
+  | .zeroCnt i k =>
+      { sh with cnt := upd2 sh.cnt i k 0,
+                dirty := fun a b => if a = i ∧ b = k then false else sh.dirty a b,
+                -- (a zeroing of a word that is not being recycled would wipe recorded data; it never happens)
+                lost := upd2 sh.lost i k (if sh.dirty i k then sh.lost i k else sh.lost i k + sh.cnt i k) }
   | .setMinRt i v => { sh with minRt := upd sh.minRt i v }
   | .setMaxConc i v => { sh with maxConc := upd sh.maxConc i v }
-  | .addCnt i k a => { sh with cnt := upd2 sh.cnt i k (sh.cnt i k + a), tot := upd2 sh.tot i k (sh.tot i k + a) }
+  | .addCnt i k a =>
+      { sh with cnt := upd2 sh.cnt i k (sh.cnt i k + a), tot := upd2 sh.tot i k (sh.tot i k + a),
+                fresh := upd2 sh.fresh i k (sh.fresh i k + a),
+                lost := upd2 sh.lost i k (if sh.dirty i k then sh.lost i k + a else sh.lost i k) }
 
 /-- where the thread goes: on inside the current operation, or the operation returns -/
 inductive Next where
@@ -284,7 +299,8 @@ def initStart (n L now : Nat) : Nat → Nat :=
 
 def mkShared (n L Iv now : Nat) : Shared :=
   { n := n, L := L, Iv := Iv, start := initStart n L now, cnt := fun _ _ => 0, minRt := fun _ => maxRt,
-    maxConc := fun _ => 0, lock := false, tot := fun _ _ => 0 }
+    maxConc := fun _ => 0, lock := false, tot := fun _ _ => 0,
+    fresh := fun _ _ => 0, dirty := fun _ _ => false, lost := fun _ _ => 0 }
 
 def mkThread (prog : List OpSpec) : Th := { prog := prog, cur := none, res := [] }
 
